@@ -779,9 +779,12 @@ pub fn run(opts: &Options, prop: &str) -> Report {
             rep.evaluations += 1;
             let mut node = Node::new_unopened(&world.chain.consensus, 5, 2000, 1);
             let counter = std::rc::Rc::new(std::cell::Cell::new(0u64));
+            let first_sites: std::rc::Rc<std::cell::RefCell<Vec<&'static str>>> = Default::default();
             {
                 let c = counter.clone();
-                crate::verif_hooks::set_before_write(Some(Box::new(move |_site| {
+                let fs = first_sites.clone();
+                crate::verif_hooks::set_before_write(Some(Box::new(move |site| {
+                    fs.borrow_mut().push(site);
                     c.set(c.get() + 1);
                     if c.get() == k {
                         panic!("simulated crash at store write {} of the first start", c.get());
@@ -792,6 +795,14 @@ pub fn run(opts: &Options, prop: &str) -> Report {
             crate::verif_hooks::set_before_write(None);
             if first.is_ok() {
                 total_writes = counter.get();
+                // the writes of an uninterrupted first start against the Meta model
+                let ans = run_model(opts, "meta", &["reset".to_string(), "init 1 0".to_string(), "init 1 0".to_string()]);
+                let imp = format!("writes {}", first_sites.borrow().join(" "));
+                if ans.get(1) == Some(&imp) && ans.get(2).map(|a| a.trim_end()) == Some("writes") {
+                    rep.traces_validated += 1;
+                } else {
+                    rep.disagree("meta: init (the store writes of the first start)", &imp, ans.get(1).map(|s| s.as_str()).unwrap_or(""));
+                }
                 break; // k is beyond the last write of the initialisation
             }
             node.inner = None;
